@@ -10,17 +10,18 @@ import copy, itertools
 from eonmc import import_eon
 from eonmc.core import explore, outcome_dist, HarnessError, CapHit
 from eonmc.common import V, Acc
+from eonmc import fam_gillespie as fg, fam_complex as fc
 
 LEVEL = "model_checking"
-TECHNIQUE = "explicit-state breadth-first search over all operation histories of the real _ListDict_ (deduplicated on full internal state) + exhaustive enumeration of the random draws of choose_random in every state"
+TECHNIQUE = "explicit-state breadth-first search over all operation histories of the real _ListDict_ (deduplicated on full internal state) + exhaustive enumeration of the random draws of choose_random in every state; plus stateless exploration of the weighted simulators (Gillespie_SIR/SIS, complex contagion) checking per-state selection probability, clock rate and held weights"
 LEVEL_TEXT = ("All histories of insert/update/remove/random_removal up to the depth bound over 3 items and a non-dyadic weight alphabet are "
               "explored on the real object; in every reachable state the exact selection distribution implied by the real rejection sampler "
               "equals weight/sum, zero weights are never selected, selection terminates when the sum is positive, total_weight() equals the sum.")
 LEVEL_NOTE = "bounded depth and alphabet; reference = a plain dict; float tolerance 1e-9"
 RULE = "states = distinct full internal states (items order, positions, weights, total, max, max count) reached by any history up to the depth bound; non-trivial = state with >=2 items of different positive weight"
 # every selection is explored with the probability-zero outcome "uniform draw == 0.0" as an extra branch
-BOUNDS = {"quick": "items {a,b,c}; weights {0,1e-8,0.1,0.3,2}; depth 5; start states: empty + one per first operation (fan-out)",
-          "thorough": "items {a,b,c}; weights {0,1e-8,0.1,0.2,0.3,1,2}; depth 5"}
+BOUNDS = {"quick": "items {a,b,c}; weights {0,1e-8,0.1,0.3,2}; depth 5; start states: empty + one per first operation (fan-out); in vivo: every weighted Gillespie_SIR/SIS spec of C01/C02 on <=3 nodes and the non-monotone complex-contagion programs of C15 on <=3 nodes (selection probability, clock rate, held weights, zero-weight events)",
+          "thorough": "items {a,b,c}; weights {0,1e-8,0.1,0.2,0.3,1,2}; depth 5; in vivo: the thorough C01/C02/C15 specs on <=3 nodes"}
 ASSUMPTIONS = ["weight increments are non-negative (as the property states)", "bounded history depth"]
 
 ITEMS = ["a", "b", "c"]
@@ -68,7 +69,44 @@ def specs(tier, seed):
     firsts = [o for o in ops if o[0] in ("insert", "update")]
     for o1 in firsts:
         out.append({"W": W, "depth": depth, "first": list(o1)})
+    out += invivo_specs(tier)
     return out
+
+
+# ---- behavioural ("in vivo") part: the candidate lists as the real simulators drive them -------------
+INVIVO_SYMPTOMS = ("clock_rate", "probability", "extra_event", "missing_event", "zero_rate_event", "stale_rate",
+                   "livelock", "event_after_end", "exception")
+INVIVO_PROGRAMS = ("SIS", "decay", "tinydecay", "SIR_int0", "thr1", "twoway")
+
+
+def invivo_specs(tier):
+    out = []
+    for sp in fg.specs_sir(tier) + fg.specs_sis(tier):
+        if (sp.get("tw") or sp.get("rw")) and sp["n"] <= 3 and not sp.get("full"):
+            out.append(dict(sp, invivo="gillespie"))
+    for sp in fc.specs(tier):
+        if sp["program"] in INVIVO_PROGRAMS and sp["n"] <= 3 and not sp.get("full") and "tmin" not in sp:
+            out.append(dict(sp, invivo="complex"))
+    return out
+
+
+def run_invivo(spec):
+    kind = spec["invivo"]
+    sp = {k: v for k, v in spec.items() if k != "invivo"}
+    if kind == "gillespie":
+        main = "C01" if sp["fn"] == "Gillespie_SIR" else "C02"
+        res = fg.run_spec(sp, props=(main,))
+    else:
+        main = "C15"
+        res = fc.run_spec(sp, props=("C15",))
+    keep = []
+    for v in res["violations"]:
+        _, entry, cls, sym = v["key"].split("|", 3)
+        if sym in INVIVO_SYMPTOMS:
+            v = dict(v, prop="C16", key="C16|%s|invivo:%s|%s" % (entry, cls, sym))
+            keep.append(v)
+    res["violations"] = keep
+    return res
 
 
 def selection(sim, ld):
@@ -151,6 +189,8 @@ def successors(sim, ld, ref, ops):
 
 
 def run_spec(spec):
+    if spec.get("invivo"):
+        return run_invivo(spec)
     EoN, sim = import_eon()
     A = Acc()
     W = spec["W"]; depth = spec["depth"]
